@@ -10,7 +10,10 @@
  * unmodified source is read; its 4th argument is `overlap_proc_ptr overlap_func` in the definition and the name of a
  * band function at each call site, so token pasting tells them apart: the definition becomes
  *     pixman_op_real (overlap_proc_ptr overlap_func, new_reg, reg1, reg2, append_non1, append_non2)
- * (body unchanged) and the call sites become opv_pixman_op (<band function>, new_reg, reg1, reg2, n1, n2).
+ * (body unchanged) and the call sites become opv_pixman_op (<tag of the band function>, new_reg, reg1, reg2, n1, n2).
+ * The tag (0 intersect, 1 union, 2 subtract) replaces the function name so that, in the CBMC build, the ADDRESS of a
+ * real band function is never taken: cbmc resolves the call through pixman_op's function-pointer parameter to every
+ * address-taken function of that type, and the bodies of the band functions must not be part of a modular query.
  * If the source changes shape this stops compiling -> exit 2 (undecided), never a verdict.
  *
  * Allocation: every malloc/realloc/free of the library goes through vh_alloc.h (k-th allocation fails iff bit k of
@@ -23,6 +26,29 @@
 #include <stdlib.h>
 #include <string.h>
 #include "vh_alloc.h"
+
+/* Rectangle blocks as TYPED objects in the CBMC build.  The library allocates header + boxes in one untyped block
+ * (malloc (sizeof (header) + n * sizeof (box))), which cbmc can only treat as a byte array: every access turns into
+ * byte extraction at a computed offset and the queries do not finish.  In the CBMC build every allocation request of
+ * the library is therefore served by a block of the fixed type `struct opv_block` (header + OPV_CAP boxes); a request
+ * larger than that is an obligation failure (alloc.request_within_model_capacity), never silently granted.  realloc is
+ * allocate + copy + free, so pointers into the old block dangle exactly as with a moving realloc.  The k-th
+ * allocation call fails iff bit k of vh_failmask (vh_alloc.h's counter is used).  Natively (replay) the C library's
+ * allocator is used with the exact sizes, so ASan sees every overflow / use after free.
+ * Not flagged in the CBMC build: a write beyond the requested size but inside the model block (the harnesses check
+ * numRects <= size wherever they look at a region). */
+#ifndef OPV_CAP
+#define OPV_CAP 24
+#endif
+#ifdef VH_CBMC
+#undef malloc
+#undef realloc
+#undef calloc
+static void *opv_malloc (size_t n);
+static void *opv_realloc (void *p, size_t n);
+#define malloc(n)     opv_malloc (n)
+#define realloc(p, n) opv_realloc ((p), (n))
+#endif
 
 #ifndef VR_BITS
 #define VR_BITS 32
@@ -40,9 +66,19 @@ static int opv_pixman_op ();        /* defined below, after the types exist */
 
 #define pixman_op(a, b, c, d, e, f) OPVP_##d , a, b, c, e, f)
 #define OPVP_overlap_proc_ptr             pixman_op_real (overlap_proc_ptr
-#define OPVP_pixman_region_intersect_o    opv_pixman_op (pixman_region_intersect_o
-#define OPVP_pixman_region_union_o        opv_pixman_op (pixman_region_union_o
-#define OPVP_pixman_region_subtract_o     opv_pixman_op (pixman_region_subtract_o
+#define OPVP_pixman_region_intersect_o    opv_pixman_op (0
+#define OPVP_pixman_region_union_o        opv_pixman_op (1
+#define OPVP_pixman_region_subtract_o     opv_pixman_op (2
+
+#ifdef OPV_COALESCE_STUB
+/* pixman_coalesce (region, prev_start, cur_start): the definition's first parameter is `region_type_t * region`, the
+ * call sites (macro COALESCE, used by pixman_op and validate) pass `new_reg` / `reg`; pasting selects the spelling */
+static int opv_coalesce ();
+#define pixman_coalesce(a, b, c) OPVC_##a , b, c)
+#define OPVC_region_type_t                pixman_coalesce_real (region_type_t
+#define OPVC_new_reg                      opv_coalesce (new_reg
+#define OPVC_reg                          opv_coalesce (reg
+#endif
 
 #if VR_BITS == 32
 #include "pixman-region32.c"
@@ -63,6 +99,48 @@ typedef vh_i16 rh_coord;
 #endif
 
 #undef pixman_op
+#ifdef OPV_COALESCE_STUB
+#undef pixman_coalesce
+#undef OPVC_reg
+#undef OPVC_new_reg
+#endif
+
+struct opv_block { region_data_type_t hdr; box_type_t boxes[OPV_CAP]; };
+/* the model block is an ARRAY OF BOXES whose first element(s) hold the header (16 bytes = 1 box32 = 2 box16): cbmc then
+ * resolves ((box *) (data + 1))[i] to an array index even when i is symbolic (after a possible coalesce) */
+#define OPV_BLOCK_ELEMS (sizeof (struct opv_block) / sizeof (box_type_t))
+static void *opv_block_new (int size)        /* a block the harness hands to the library (not counted by vh_alloc) */
+{
+#ifdef VH_CBMC
+    VH_ASSUME (size <= OPV_CAP);
+    return (malloc) (sizeof (box_type_t) * OPV_BLOCK_ELEMS);
+#else
+    return (malloc) (sizeof (region_data_type_t) + (size_t) size * sizeof (box_type_t));
+#endif
+}
+#ifdef VH_CBMC
+static void *opv_malloc (size_t n)
+{
+    if (vh_should_fail ())
+        return (void *) 0;
+    VH_CHECK ("alloc.request_within_model_capacity", n <= sizeof (struct opv_block));
+    return (malloc) (sizeof (box_type_t) * OPV_BLOCK_ELEMS);
+}
+static void *opv_realloc (void *p, size_t n)
+{
+    box_type_t *q;
+    if (vh_should_fail ())
+        return (void *) 0;
+    VH_CHECK ("alloc.request_within_model_capacity", n <= sizeof (struct opv_block));
+    q = (box_type_t *) (malloc) (sizeof (box_type_t) * OPV_BLOCK_ELEMS);
+    if (p)
+    {
+        __CPROVER_array_copy (q, (box_type_t *) p);
+        (free) (p);
+    }
+    return q;
+}
+#endif
 
 #define SR_SFX r
 #define SR_REGION_T region_type_t
@@ -98,15 +176,116 @@ static int opv_pixman_op_contract (region_type_t *new_reg, region_type_t *reg1, 
                                    int append_non1, int append_non2);
 #endif
 
-static int opv_pixman_op (overlap_proc_ptr f, region_type_t *new_reg, region_type_t *reg1, region_type_t *reg2,
+static int opv_pixman_op (int tag, region_type_t *new_reg, region_type_t *reg1, region_type_t *reg2,
                           int append_non1, int append_non2)
 {
 #ifdef OPV_OP_STUB
-    (void) f;
+    (void) tag;
     return opv_pixman_op_contract (new_reg, reg1, reg2, append_non1, append_non2);
+#elif defined(VH_CBMC)
+    /* modular pixman_op query: the public entry points that call pixman_op are not part of it */
+    (void) tag; (void) new_reg; (void) reg1; (void) reg2; (void) append_non1; (void) append_non2;
+    VH_CHECK ("opv.public_entry_points_not_part_of_this_query", 0);
+    return 0;
 #else
-    return pixman_op_real (f, new_reg, reg1, reg2, append_non1, append_non2);
+    return pixman_op_real (tag == 0 ? pixman_region_intersect_o : tag == 1 ? pixman_region_union_o : pixman_region_subtract_o,
+                           new_reg, reg1, reg2, append_non1, append_non2);
 #endif
+}
+
+/* C06 clauses 1-4 on a rectangle list b[0..n), n <= cap, in ONE pass (a formulation of sr_canon_list of
+ * spec_region.h whose cost is linear in cap; the two are proved equivalent for every list of <= 5 boxes by the job
+ * lemma.canon_linear_equals_spec):
+ *   (1) boxes non-empty; (2)(3)(4a) consecutive boxes: same band (same y1 => same y2, separated by a gap in x) or a
+ *   later band (y1 >= bottom of the previous box); (4b) no band is vertically adjacent to the previous band with
+ *   identical x spans.  ps / cs = start of the previous / current band; same = the boxes of the current band seen so
+ *   far repeat the x spans of the previous band position by position. */
+static int opv_canon_list (const box_type_t *b, int n, int cap)
+{
+    int i, ok = 1, ps = 0, cs = 0, same = 0;
+    for (i = 0; i < cap; i++)
+        if (i < n)
+        {
+            if (!(b[i].x1 < b[i].x2 && b[i].y1 < b[i].y2))
+                ok = 0;
+            if (i > 0 && b[i].y1 == b[i - 1].y1)
+            {
+                /* same band */
+                if (b[i].y2 != b[i - 1].y2 || !(b[i - 1].x2 < b[i].x1))
+                    ok = 0;
+            }
+            else
+            {
+                /* a band starts at i; the band [cs,i) is complete: was it a repetition of [ps,cs)? */
+                if (i > 0)
+                {
+                    if (!(b[i].y1 >= b[i - 1].y2))
+                        ok = 0;
+                    if (cs > ps && same && i - cs == cs - ps && b[ps].y2 == b[cs].y1)
+                        ok = 0;
+                    ps = cs;
+                    cs = i;
+                }
+                same = 1;
+            }
+            /* position i - cs of the current band against the same position of the previous band */
+            if (cs > ps)
+            {
+                int t = ps + (i - cs);
+                if (t >= cs || b[t].x1 != b[i].x1 || b[t].x2 != b[i].x2)
+                    same = 0;
+            }
+        }
+    if (n > 0 && cs > ps && same && n - cs == cs - ps && b[ps].y2 == b[cs].y1)
+        ok = 0;
+    return ok;
+}
+
+static int opv_member_boxes (const box_type_t *b, int n, int cap, long px, long py)
+{
+    int i, in = 0;
+    for (i = 0; i < cap; i++)
+        if (i < n && sr_in_box_r (&b[i], px, py))
+            in = 1;
+    return in;
+}
+
+/* every clause of C06 on a region with at most cap rectangles: legal memory shape (0 rectangles <=> the shared empty
+ * block, 1 rectangle <=> data == NULL, else a heap list with numRects <= size), canonical list, extents == tight
+ * bounding box (empty region: degenerate extents).  Same meaning as sr_canon of spec_region.h, linear cost. */
+#ifndef OPV_CANON_CAP
+#define OPV_CANON_CAP 6
+#endif
+static int opv_region_canon (const region_type_t *r, int cap)
+{
+    box_type_t c[OPV_CANON_CAP];
+    const box_type_t *b;
+    int i, n;
+    long x1, y1, x2, y2;
+
+    if (!sr_shape_wf_r (r, RH_EMPTY))
+        return 0;
+    n = sr_nrects_r (r);
+    if (n < 0 || n > cap || cap > OPV_CANON_CAP)
+        return 0;
+    if (n == 0)
+        return r->extents.x1 == r->extents.x2 && r->extents.y1 == r->extents.y2;
+    b = sr_rects_r (r);
+    for (i = 0; i < OPV_CANON_CAP; i++)
+        if (i < n)
+            c[i] = b[i];
+    if (!opv_canon_list (c, n, OPV_CANON_CAP))
+        return 0;
+    x1 = c[0].x1; y1 = c[0].y1; x2 = c[0].x2; y2 = c[0].y2;
+    for (i = 1; i < OPV_CANON_CAP; i++)
+        if (i < n)
+        {
+            if (c[i].x1 < x1) x1 = c[i].x1;
+            if (c[i].y1 < y1) y1 = c[i].y1;
+            if (c[i].x2 > x2) x2 = c[i].x2;
+            if (c[i].y2 > y2) y2 = c[i].y2;
+        }
+    return r->extents.x1 == x1 && r->extents.y1 == y1 && r->extents.x2 == x2 && r->extents.y2 == y2;
 }
 
 static int opv_box_eq (const box_type_t *a, const box_type_t *b)
@@ -118,7 +297,7 @@ static int opv_box_eq (const box_type_t *a, const box_type_t *b)
 static void opv_make_heap (region_type_t *r, int size, int n, const box_type_t *b)
 {
     int i;
-    r->data = (region_data_type_t *) (malloc) (sizeof (region_data_type_t) + size * sizeof (box_type_t));
+    r->data = (region_data_type_t *) opv_block_new (size);
     VH_ASSUME (r->data != 0);
     r->data->size = size;
     r->data->numRects = n;
@@ -139,6 +318,86 @@ static void opv_bbox (const box_type_t *b, int n, box_type_t *out)
         if (b[i].y2 > out->y2) out->y2 = b[i].y2;
     }
 }
+
+#ifdef OPV_COALESCE_STUB
+/* ---- pixman_coalesce replaced by its CONTRACT (body: leaf*.coalesce.* jobs of C05) -------------------------------
+ *   requires  the list ends with two complete bands [prev_start,cur_start) and [cur_start,numRects) of equal length
+ *   ensures   if bottom (prev) == top (cur) and the x spans are identical position by position: the current band is
+ *             removed, the previous band now ends at bottom (cur), result prev_start; else nothing changes, result
+ *             cur_start.
+ * Whether the spans are identical depends on the (free) x coordinates.  To keep the fill level of the block — and with
+ * it every pointer — concrete for the verifier, the stub does not branch on that condition: it takes the decision
+ * from a concrete decision vector (opv_decide) and records in opv_guard whether the decision agrees with the
+ * condition.  The harness runs every leaf of the decision tree and states each x-dependent obligation as
+ * "opv_guard => ...": for every x exactly one leaf has opv_guard true, so all x are covered.  Natively (replay) the
+ * real pixman_coalesce runs. */
+#define OPV_MAXDEC 12
+static int opv_dec[OPV_MAXDEC], opv_dec_n, opv_dec_used, opv_guard;
+
+static int opv_decide (void)
+{
+    int d = 0;
+    VH_CHECK ("opv.decision_vector_large_enough", opv_dec_used < OPV_MAXDEC);
+    if (opv_dec_used >= OPV_MAXDEC)
+        return 0;
+    if (opv_dec_used < opv_dec_n)
+        d = opv_dec[opv_dec_used];
+    else
+    {
+        opv_dec[opv_dec_used] = 0;
+        opv_dec_n = opv_dec_used + 1;
+    }
+    opv_dec_used++;
+    return d;
+}
+
+/* advance to the next leaf of the decision tree; 0 when every leaf has been visited */
+static int opv_next_leaf (void)
+{
+    opv_dec_n = opv_dec_used;
+    while (opv_dec_n > 0 && opv_dec[opv_dec_n - 1] == 1)
+        opv_dec_n--;
+    if (opv_dec_n == 0)
+        return 0;
+    opv_dec[opv_dec_n - 1] = 1;
+    return 1;
+}
+
+/* executions that repeat a leaf with an injected failure must not disturb the enumeration */
+static int opv_saved_n, opv_saved_used;
+static void opv_leaf_save (void) { opv_saved_n = opv_dec_n; opv_saved_used = opv_dec_used; }
+static void opv_leaf_restore (void) { opv_dec_n = opv_saved_n; opv_dec_used = opv_saved_used; }
+
+static int opv_coalesce (region_type_t *region, int prev_start, int cur_start)
+{
+#ifdef VH_CBMC
+    int n = cur_start - prev_start, i, identical = 1, d;
+    box_type_t *b;
+    VH_CHECK ("coalesce.pre.list_ends_with_two_bands_of_equal_length",
+              region->data != (region_data_type_t *) 0 && prev_start >= 0 && n >= 0 && region->data->numRects - cur_start == n
+              && region->data->numRects <= region->data->size);
+    if (n <= 0)
+        return cur_start;
+    b = PIXREGION_BOXPTR (region);
+    if (b[prev_start].y2 != b[cur_start].y1)
+        return cur_start;
+    for (i = 0; i < n; i++)
+        if (b[prev_start + i].x1 != b[cur_start + i].x1 || b[prev_start + i].x2 != b[cur_start + i].x2)
+            identical = 0;
+    d = opv_decide ();
+    if (identical != d)
+        opv_guard = 0;
+    if (!d)
+        return cur_start;
+    for (i = 0; i < n; i++)
+        b[prev_start + i].y2 = b[cur_start + i].y2;
+    region->data->numRects -= n;
+    return prev_start;
+#else
+    return pixman_coalesce_real (region, prev_start, cur_start);
+#endif
+}
+#endif
 
 /* release with the C library's free, not counted */
 static void opv_release (region_type_t *r)
